@@ -56,12 +56,16 @@ def gen_case(rng):
                 "hold": rng.choice([0, 1, 1, 2, 3, 0.5]),
                 "double": rng.random() < 0.15,
                 "release_after_preempt": rng.random() < 0.5,
+                "exit_exc": rng.random() < 0.15,       # the with-block is left by a BaseException-only exception
             })
         procs.append(its)
     pokes = [[rng.choice([0.5, 1, 2, 3, 4, 5, 6]), rng.randrange(nproc)] for _ in range(rng.randint(0, 4))]
     rogue = [[rng.choice([1, 2, 3, 4]), rng.randrange(nproc), rng.choice(["nonuser", "nonuser", "holder", "wrong-resource"])]
              for _ in range(rng.randint(0, 3))]
-    return {"kind": kind, "capacity": rng.randint(1, 4), "procs": procs, "pokes": sorted(pokes), "rogue": sorted(rogue)}
+    case = {"kind": kind, "capacity": rng.randint(1, 4), "procs": procs, "pokes": sorted(pokes), "rogue": sorted(rogue)}
+    if kind != "Resource" and rng.random() < 0.12:
+        case["queue_maxlen"] = rng.choice([1, 2, 3])       # a bounded request queue: a request beyond it is refused
+    return case
 
 
 class Shadow:
@@ -175,6 +179,9 @@ def run_case(case, stats):
     env = Env()
     kind, cap = case["kind"], case["capacity"]
     res = {"Resource": Resource, "PriorityResource": PriorityResource, "PreemptiveResource": PreemptiveResource}[kind](env, cap)
+    if "queue_maxlen" in case:
+        res.put_queue.maxlen = case["queue_maxlen"]
+        stats["bounded_queue_cases"] += 1
     other = type(res)(env, 1)          # a second resource of the same class that nobody requests
     viol = []
     sh = Shadow(res, kind, cap, viol, stats, env)
@@ -239,10 +246,21 @@ def run_case(case, stats):
             sh.sync("pre-request")
             users_before = [sh.reqs[i] for i in sh.seen_users]
             full = len(res.users) >= cap
-            if kind == "Resource":
-                req = res.request()
-            else:
-                req = res.request(priority=it["prio"], preempt=it["preempt"])
+            qlen0 = len(res.queue)
+            try:
+                if kind == "Resource":
+                    req = res.request()
+                else:
+                    req = res.request(priority=it["prio"], preempt=it["preempt"])
+            except RuntimeError as e:
+                if "queue_maxlen" not in case or qlen0 < case["queue_maxlen"]:
+                    sh.bad("request-raised", "request() raised although the request queue is not bounded / not full", repr(e)[:100])
+                    return
+                stats["requests_refused_queue_full"] += 1
+                if len(res.queue) != qlen0:
+                    sh.bad("refused-request-left-in-queue", "a request refused because the queue is full stayed in the queue", len(res.queue))
+                sh.sync("refused")
+                continue
             rec = sh.new(req, pid, it["prio"] if kind != "Resource" else 0, it["preempt"] if kind != "Resource" else False, me)
             if it["form"] == "with":
                 req.__enter__()
@@ -302,7 +320,13 @@ def run_case(case, stats):
             if rec["state"] == "granted":
                 rec["state"] = "released"
             if it["form"] == "with":
-                req.__exit__(None, None, None)
+                if it.get("exit_exc"):
+                    # left by an exception that is no Exception subclass (a control-flow signal caught further out):
+                    # a context-manager exit like any other
+                    req.__exit__(kern.Crit, kern.Crit("leave"), None)
+                    stats["with_exits_by_base_exception"] += 1
+                else:
+                    req.__exit__(None, None, None)
                 stats["with_exits"] += 1
             else:
                 res.release(req)
@@ -421,7 +445,7 @@ def run_case(case, stats):
 KEYS = ("grants", "advance_checks", "evictions", "refused_evictions", "cancels_waiting", "cancel_noop_granted",
         "double_releases", "nonuser_releases", "with_exits", "preempted_causes_checked", "capacity_checks",
         "grants_with_others_waiting", "pokes", "evictions_among_equal_keys", "releases_by_another_process",
-        "releases_through_another_resource")
+        "releases_through_another_resource", "requests_refused_queue_full", "with_exits_by_base_exception", "bounded_queue_cases")
 
 
 def one_case(ctx, case):
